@@ -52,6 +52,20 @@ def run(prop, tier, seed, scratch, t0):
             tl.append(rs)
             dr += ds
         tl.insert(0, f1.result())
+    # every edge of the exhaustively checked (small) graph of Update.tla
+    rg = vlib.tlc(scratch, "Update", CFG % (mc + ("",)), name="Update_graph", workers=1,
+                  extra=["-dump", "dot,actionlabels", "graph.dot"], timeout=3000)
+    if not rg["ok"]:
+        raise vlib.Inconclusive("TLC reports %s in Update.tla itself" % rg["violated"])
+    gdot = os.path.join(rg["dir"], "graph.dot")
+    rg["out"] = ""
+    tl.append(rg)
+    gsh = vlib.NCPU
+    with cf.ThreadPoolExecutor(max_workers=gsh) as ex:
+        dg = list(ex.map(lambda k: vlib.run_driver(binary, "TestUpdate", dict(VERIF_DOT=gdot, VERIF_T=mc[1], VERIF_SHARD=k, VERIF_SHARDS=gsh, VERIF_SEED=seed),
+                                                   scratch, "updg%d" % k, timeout=6000), range(gsh)))
+    os.remove(gdot)
+    dr += dg
     # Early.tla: updates issued at the seam between opening and updating (version-1 cache, concurrent openings)
     re_ = vlib.tlc(scratch, "Early", "SPECIFICATION Spec\nINVARIANTS AtMostOnce HandledWhenOpen NotBeforeOpen\nCHECK_DEADLOCK FALSE\n",
                    name="Early", workers=1, extra=["-dump", "dot,actionlabels", "graph.dot"], timeout=600)
@@ -79,7 +93,8 @@ def run(prop, tier, seed, scratch, t0):
         traces_validated_against_impl=counts.get("behaviours", 0),
         samples=[s for d in dr for s in d["samples"]][:2],
         evaluations=counts.get("env_steps", 0), distinct_nontrivial=counts.get("behaviours", 0),
-        rule="TLC simulates behaviours of Update.tla (programs of Update calls by either party, sequential and concurrent, "
+        rule="every edge of the exhaustively model-checked graph of Update.tla (small constants) is replayed after its shortest path "
+             "and continued until nothing is left to do; in addition TLC simulates behaviours of Update.tla with larger constants (programs of Update calls by either party, sequential and concurrent, "
              "every delivery order of the envelopes in flight, accept/reject, delayed answers, cancelled/expired call "
              "contexts); each is replayed on two real clients in a synctest bubble: scheduled bus (native serializer round "
              "trip), strict ledger, recording persisters, scripted handlers; after every environment step (quiescence) the "
